@@ -443,7 +443,7 @@ func init() {
 		o.WritersWithin(T, "version", map[string]string{"(*am/silence.Silences).indexSilence": "", "(*am/silence.Silences).loadSnapshot": ""})
 		o.WritersWithin(T, "vi", map[string]string{"(*am/silence.Silences).indexSilence": "", "(*am/silence.Silences).loadSnapshot": "", "(*am/silence.Silences).GC": "", "am/silence.New": ""})
 		o.WritersWithin(T, "mi", map[string]string{"(*am/silence.Silences).indexSilence": "", "(*am/silence.Silences).loadSnapshot": "", "(*am/silence.Silences).GC": "", "am/silence.New": ""})
-		exempt["am/silence.QMatches$1$1"] = "filter closure: only invoked by query's filter helper, whose call sites hold the read lock (asserted below)"
+		exempt["am/silence.QMatches$1$1"] = "filter closure: only invoked through query's filter calls, which hold the read lock (asserted below)"
 		n := 0
 		for _, f := range []string{"st", "mi", "vi", "version"} {
 			ex := exempt
@@ -453,13 +453,11 @@ func init() {
 			}
 			n += o.LockedAccesses(T, f, "mtx", ex)
 		}
-		// the filter helper of query runs under the read lock
-		qh := o.Fn("(*am/silence.Silences).query$2")
-		for _, cs := range e.callers[qh] {
-			ok, why := e.HeldAt(cs.Instr, cs.Caller.Params[0], "mtx", 'R', 0)
-			o.Check(ok, "filter-helper-unlocked", "query filters are evaluated without the read lock: "+why, cs.Instr)
+		// the filters of a query are evaluated under the read lock
+		for _, fc := range queryFilterSites(o) {
+			ok, why := e.HeldAt(fc, fc.Call.Args[1], "mtx", 'R', 2)
+			o.Check(ok, "filter-helper-unlocked", "query filters are evaluated without the read lock: "+why, fc)
 		}
-		o.Check(len(e.callers[qh]) >= 1, "filter-helper-callers", "query's filter helper has no static call sites", nil)
 		// loadSnapshot is only called from New
 		ls := o.Fn("(*am/silence.Silences).loadSnapshot")
 		for _, cs := range e.callers[ls] {
@@ -603,51 +601,7 @@ func init() {
 
 	reg("C02", "C02.8", "T1,T8,T11", "Query: a silence is returned iff all filters match; QState uses the query's now; QMatches uses the compiled matcher sets; matcherIndex.add compiles every set into its own slice with the right operator", func(o *Ob) {
 		e := o.E
-		ap := o.Fn("(*am/silence.Silences).query$2")
-		// appended iff all filters pass
-		m := LRe(`dyn\(fn=\^p0\.filters\[i\], p1, \^recv, \^p1\)#0`, true)
-		errNil := LRe(`\(dyn\(fn=\^p0\.filters\[i\], p1, \^recv, \^p1\)#1 == nil\)`, true)
-		cl := o.One(e.Calls(ap, "am/silence.cloneSilence"), "append-clone", "the filter helper must append a clone", ap)
-		o.Site(cl, "append if all filters match")
-		// a rejecting or failing filter leaves the result unchanged
-		afterLit := func(lit LitM, key string, ret0, ret1 []string) {
-			n := 0
-			for _, b := range ap.Blocks {
-				for si := range b.Succs {
-					if l, ok := e.EdgeLit(b, si); ok && lit.F(l) {
-						n++
-						r := (&Walk{Fn: ap}).FromEdge(b, si)
-						o.Check(!r.Has(cl), key+"-appends", "after a filter "+key+" the silence can still be added to the result", cl)
-						for _, ret := range r.Returns() {
-							v0, v1 := e.ValStrs(ap, e.RetVals(r, ret, 0)), e.ValStrs(ap, e.RetVals(r, ret, 1))
-							ok0 := len(v0) == 1 && (v0[0] == ret0[0])
-							ok1 := len(v1) == 1 && (v1[0] == ret1[0] || strings.HasPrefix(ret1[0], "~") && regexpMatch(ret1[0][1:], v1[0]))
-							o.Check(ok0 && ok1, key+"-ret", "after a filter "+key+" the helper returns ("+strings.Join(v0, "|")+", "+strings.Join(v1, "|")+")", ret)
-						}
-					}
-				}
-			}
-			o.Check(n > 0, key+"-notest", "the filter helper no longer tests whether a filter "+key, nil)
-		}
-		afterLit(m.Neg(), "rejects", Vals("p0"), Vals("nil"))
-		afterLit(errNil.Neg(), "fails", Vals("p0"), Vals("~dyn.*#1"))
-		// all filters passed ⇒ appended
-		for _, l := range e.Loops(ap) {
-			hx, _ := l.HeaderExit()
-			r := (&Walk{Fn: ap, Barrier: IsInstr(cl)}).FromEdge(l.Header, hx)
-			o.Check(len(r.Returns()) == 0, "filters-pass-noappend", "a silence that passed every filter may be left out of the result", cl)
-		}
-		for _, l := range e.Loops(ap) {
-			coll, kind := e.RangeOver(l)
-			o.Check(coll == "^p0.filters" && kind == "index", "filters-range", "every filter of the query must be applied", cl)
-			o.LoopExitsGuarded(l, "filters-exit", "skipping the remaining filters is only allowed when one rejected or failed", m.Neg(), errNil.Neg())
-		}
-		// the filter gets the query's now
-		for _, in := range AllInstrs(ap) {
-			if c, ok := in.(*ssa.Call); ok && calleeName(&c.Call) == "dyn" {
-				o.Check(e.X(ap, c.Call.Args[2]) == "^p1", "filters-now", "filters must be evaluated at the query's now", c)
-			}
-		}
+		queryFilterRule(o)
 		// QState
 		qs := o.Fn("am/silence.QState$1$1")
 		in := LRe(`slices\.Contains\(\^\^p0, am/silence\.getState\(p0, p2\)\)`, true)
@@ -667,21 +621,6 @@ func init() {
 		}
 		// matcherIndex.add
 		matcherIndexAddRule(o)
-		// query: id path looks up every id; since path starts at findVersionGreaterThan(*q.since) and scans the rest
-		q := o.Fn("(*am/silence.Silences).query")
-		fv := o.One(e.Calls(q, "(am/silence.versionIndex).findVersionGreaterThan"), "since-search", "the incremental query must locate its start with findVersionGreaterThan", q)
-		o.Check(e.Arg(fv, 0) == "recv.vi" && e.Arg(fv, 1) == "*p0.since", "since-search-args", "the search must be over the version index for the requested version", fv)
-		for _, c := range e.Calls(q, "(*am/silence.Silences).query$2") {
-			l := e.LoopOf(c)
-			if !o.Check(l != nil, "scan-loop", "query evaluates candidates outside a loop", c) {
-				continue
-			}
-			coll, _ := e.RangeOver(l)
-			o.Site(c, "scan over "+coll)
-			okColl := coll == "p0.ids" || strings.HasPrefix(coll, "slice(recv.vi,lo=phi((am/silence.versionIndex).findVersionGreaterThan(recv.vi, *p0.since)#0|0))")
-			o.Check(okColl, "scan-range", "query scans "+coll+": it must scan all requested ids, or the version index from the first entry newer than 'since'", c)
-			o.LoopExitsGuarded(l, "scan-exit", "a scan may only be abandoned on a filter error", LRe(`\(\(\*am/silence\.Silences\)\.query\$2\(.*\)#1 == nil\)`, false))
-		}
 		o.MinSites(6)
 	})
 }
@@ -782,4 +721,166 @@ func matcherIndexAddRule(o *Ob) {
 			}
 		}
 	}
+}
+
+// queryFilterSites: the calls through q.filters[i] in Silences.query and its literals.
+func queryFilterSites(o *Ob) []*ssa.Call {
+	e := o.E
+	q := o.Fn("(*am/silence.Silences).query")
+	var out []*ssa.Call
+	for _, f := range append([]*ssa.Function{q}, Anons(q)...) {
+		for _, in := range AllInstrs(f) {
+			c, ok := in.(*ssa.Call)
+			if !ok || c.Call.IsInvoke() || c.Call.StaticCallee() != nil {
+				continue
+			}
+			if regexpMatch(`\^?p0\.filters\[i\]`, e.X(f, c.Call.Value)) {
+				out = append(out, c)
+			}
+		}
+	}
+	o.Require(len(out) >= 1, "filters-call", "Silences.query no longer applies the query's filters", nil)
+	return out
+}
+
+// queryFilterRule: a candidate silence is added to the result iff every filter of the query accepted it;
+// a failing filter ends the query with its error; the id scan covers every requested id, the incremental scan
+// the version index from the first entry newer than 'since'.  Stated per filter call site, wherever the filter
+// loop lives (a literal, a method or the scan loops themselves).
+func queryFilterRule(o *Ob) {
+	e := o.E
+	q := o.Fn("(*am/silence.Silences).query")
+	for _, fc := range queryFilterSites(o) {
+		f := fc.Parent()
+		fx := e.X(f, fc)
+		o.Site(fc, "filter call "+fx)
+		o.Check(regexpMatch(`\^?recv`, e.X(f, fc.Call.Args[1])) && regexpMatch(`\^?p1`, e.X(f, fc.Call.Args[2])), "filters-now", "filters must be evaluated on this store at the query's now", fc)
+		cand := e.X(f, fc.Call.Args[0])
+		m := L(fx+"#0", true)
+		errNil := L("("+fx+"#1 == nil)", true)
+		inner := e.LoopOf(fc)
+		if !o.Check(inner != nil, "filters-loop", "filters are not applied in a loop", fc) {
+			continue
+		}
+		coll, kind := e.RangeOver(inner)
+		o.Check(regexpMatch(`\^?p0\.filters`, coll) && kind == "index", "filters-range", "every filter of the query must be applied", fc)
+		o.LoopExitsGuarded(inner, "filters-exit", "skipping the remaining filters is only allowed when one rejected or failed", m.Neg(), errNil.Neg())
+		// the scan loop around the filter loop, if it is in the same function
+		var outer *Loop
+		for _, l := range e.Loops(f) {
+			if l.Blocks[fc.Block().Index] && l.Header != inner.Header && (outer == nil || len(l.Blocks) < len(outer.Blocks)) {
+				outer = l
+			}
+		}
+		nextCandidate := func(in ssa.Instruction) bool {
+			return outer != nil && in.Block() == outer.Header && in == outer.Header.Instrs[0]
+		}
+		clones := e.Calls(f, "am/silence.cloneSilence")
+		isClone := func(in ssa.Instruction) bool {
+			c, ok := in.(*ssa.Call)
+			return ok && calleeName(&c.Call) == "am/silence.cloneSilence" && e.X(f, c.Call.Args[0]) == cand
+		}
+		o.Check(len(clones) >= 1, "append-clone", "a matching silence must be added to the result as a clone", fc)
+		// rejected or failed ⇒ this candidate is not added
+		for _, pr := range []struct {
+			lit LitM
+			key string
+		}{{m.Neg(), "rejects"}, {errNil.Neg(), "fails"}} {
+			ecs := e.EdgesAsserting(f, pr.lit)
+			o.Check(len(ecs) > 0, pr.key+"-notest", "the result of a filter ("+pr.key+") is not tested", fc)
+			for _, ec := range ecs {
+				r := (&Walk{Fn: f, Barrier: nextCandidate}).FromEdgeCtx(ec)
+				for _, in := range AllInstrs(f) {
+					if r.Has(in) && isClone(in) {
+						o.Fail(pr.key+"-appends", "after a filter "+pr.key+" the silence can still be added to the result", in)
+					}
+				}
+				if pr.key == "fails" {
+					for _, ret := range r.Returns() {
+						last := len(ret.Results) - 1
+						src := false
+						for _, v := range e.RetVals(r, ret, last) {
+							if e.DerivesFrom(v, false, func(x ssa.Value) bool { return x == ssa.Value(fc) }) {
+								src = true
+							} else {
+								src = false
+								break
+							}
+						}
+						o.Check(src, "fails-ret", "a failing filter must end the evaluation with the filter's error", ret)
+					}
+					// a failing filter must not let the scan go on to the next candidate
+					if outer != nil {
+						for _, be := range outer.Back {
+							o.Check(!r.Edge[be], "fails-continues", "after a failing filter the scan goes on", fc)
+						}
+					}
+				}
+				o.Checks++
+				o.Passed++
+			}
+		}
+		// all filters passed ⇒ added (before the next candidate / the return)
+		hx, _ := inner.HeaderExit()
+		r := (&Walk{Fn: f, Barrier: func(in ssa.Instruction) bool { return isClone(in) }}).FromEdge(inner.Header, hx)
+		reachedNext := false
+		if outer != nil {
+			for _, be := range outer.Back {
+				if r.Edge[be] {
+					reachedNext = true
+				}
+			}
+		}
+		o.Check(len(r.Returns()) == 0 && !reachedNext, "filters-pass-noappend", "a silence that passed every filter may be left out of the result", fc)
+	}
+	// the scans: every requested id, or the version index from the first entry newer than 'since'
+	fv := o.One(e.Calls(q, "(am/silence.versionIndex).findVersionGreaterThan"), "since-search", "the incremental query must locate its start with findVersionGreaterThan", q)
+	o.Check(e.Arg(fv, 0) == "recv.vi" && e.Arg(fv, 1) == "*p0.since", "since-search-args", "the search must be over the version index for the requested version", fv)
+	start := "phi(" + e.X(q, fv.(*ssa.Call)) + "#0|0)"
+	evaluates := func(in ssa.Instruction) bool {
+		c, ok := in.(*ssa.Call)
+		if !ok {
+			return false
+		}
+		if calleeName(&c.Call) == "(*am/silence.Silences).query$2" {
+			return true
+		}
+		return !c.Call.IsInvoke() && c.Call.StaticCallee() == nil && regexpMatch(`p0\.filters\[i\]`, e.X(q, c.Call.Value))
+	}
+	nScan := 0
+	for _, l := range e.Loops(q) {
+		// a scan loop is an outermost loop that evaluates candidates
+		has := false
+		for bi := range l.Blocks {
+			for _, in := range q.Blocks[bi].Instrs {
+				if evaluates(in) {
+					has = true
+				}
+			}
+		}
+		nested := false
+		for _, l2 := range e.Loops(q) {
+			if l2.Header != l.Header && l2.Blocks[l.Header.Index] {
+				nested = true
+			}
+		}
+		if !has || nested {
+			continue
+		}
+		nScan++
+		coll, kind := e.RangeOver(l)
+		desc := coll
+		okColl := coll == "p0.ids" && kind == "index" || strings.HasPrefix(coll, "slice(recv.vi,lo="+start+")")
+		if !okColl {
+			if c2, st, ok := e.IndexLoopFrom(l); ok {
+				desc = c2 + " from " + st
+				okColl = c2 == "recv.vi" && st == start
+			}
+		}
+		o.SiteS("scan over " + desc)
+		o.Check(okColl, "scan-range", "query scans "+desc+": it must scan all requested ids, or the version index from the first entry newer than 'since'", fnFirst(q))
+		o.LoopExitsGuarded(l, "scan-exit", "a scan may only be abandoned on a filter error",
+			LRe(`\(\(\*am/silence\.Silences\)\.query\$2\(.*\)#1 == nil\)`, false), LRe(`\(dyn\(fn=p0\.filters\[i\], .*\)#1 == nil\)`, false))
+	}
+	o.Check(nScan >= 2, "scans", "query must have the id scan and the version-index scan", fnFirst(q))
 }
